@@ -109,7 +109,7 @@ Proof. vm_compute. reflexivity. Qed.
 Theorem levels_keys_strict u (i : nat) frac c :
   0 <= u < 2 ^ 2086 -> (0 < u -> u mod 2 ^ ulp_exp u = 0) -> (1 <= i < 64)%nat -> frac = f114 \/ frac = f130 ->
   1 <= c < 2 ^ 53 -> flt (of_Z c) (thr frac i) = true ->
-  exists rb re, range_around u (Z.of_nat i) = Some (FFin false rb, FFin false re) /\ rb <= u < re /\
+  exists rb re, range_around u (Z.of_nat i) = Some (FFin false rb, FFin false re) /\ 0 <= rb <= u /\ u < re /\
     StronglySorted Flt (FFin false rb :: get_range (FFin false rb) (FFin false re) c ++ [FFin false re]) /\
     Forall posfin (get_range (FFin false rb) (FFin false re) c).
 Proof.
@@ -129,10 +129,10 @@ Proof.
     split; [apply wide_spread_strict | apply wide_spread_posfin]; try lia; exact HK24. }
   destruct (Z.eq_dec u 0) as [->|Hu0].
   - exists 0, (2 ^ (Z.of_nat i + 1021)). rewrite range_around_zero by lia. split; [reflexivity|].
-    assert (0 < 2 ^ (Z.of_nat i + 1021)) by (apply pow2_pos'; lia). split; [lia|]. apply Hwide; lia.
+    assert (0 < 2 ^ (Z.of_nat i + 1021)) by (apply pow2_pos'; lia). split; [lia|]. split; [lia|]. apply Hwide; lia.
   - destruct (Z.le_gt_cases 53 (Z.of_nat i)) as [Hhigh|Hlow].
     + destruct (range_around_high u (Z.of_nat i) ltac:(lia) ltac:(lia) ltac:(lia)) as (Hr & HuT & HT).
-      eexists 0, _. split; [exact Hr|]. split; [lia|]. apply Hwide; lia.
+      eexists 0, _. split; [exact Hr|]. split; [lia|]. split; [lia|]. apply Hwide; lia.
     + assert (Hov : 2 * u < UOVER).
       { rewrite UOVER_eq. apply Z.lt_le_trans with (2 ^ 2087).
         - replace 2087 with (Z.succ 2086) by reflexivity. rewrite Z.pow_succ_r by lia. lia.
@@ -147,7 +147,7 @@ Proof.
         destruct (g_facts u 1 ltac:(lia)) as (Hg & Hlu & _).
         set (g := if u <? P52 then 0 else Z.log2 u - 52) in *.
         set (rb := u / 2 ^ (g + 1) * 2 ^ (g + 1)) in *. set (re := rb + 2 ^ (g + 1)) in *.
-        exists rb, re. split; [exact Hr|]. split; [exact Hin|].
+        exists rb, re. split; [exact Hr|]. split; [lia|]. split; [lia|].
         assert (Hpg : 0 < 2 ^ g) by (apply pow2_pos'; lia).
         apply Z.mod_divide in Hdiv; [|lia]. destruct Hdiv as [A HA]. assert (HA0 : 0 <= A) by nia.
         change (2 ^ 1) with 2 in Hw. assert (Hre : re = A * 2 ^ g + 2 * 2 ^ g) by lia.
